@@ -167,6 +167,10 @@ def build_ops():
        lambda st: (m_update([("w", 1), ("v", 2)], True)(st)[0], OK))           # two statements: no result to compare
     op("o = Share(data=odict([('w', 1), ('v', 2)])); sh.change(o)", "change",
        lambda st: (m_update([("w", 1), ("v", 2)], False)(st)[0], OK))
+    # one create call naming the same field twice with different values: the first value stays, also against the later one
+    op("sh.create(odict([('w', 1)]), w=2)", "create", m_create([("w", 1), ("w", 2)]))
+    op("sh.create([('w', 2), ('w', 1)])", "create", m_create([("w", 2), ("w", 1)]))
+    op("sh.create({'v': 2}, [('v', 1)], v=1)", "create", m_create([("v", 2), ("v", 1), ("v", 1)]))
     for k, v in (("v", 1), ("v", 2), ("w", 1)):
         op("sh[%r] = %r" % (k, v), "[]=", (lambda k, v: lambda st: (with_fields(st, put(st[0], k, v)), OK))(k, v))
     for k in ("v", "w", "value"):
@@ -489,6 +493,7 @@ def run():
         "an operation given an invalid field name must leave the share unchanged; raising versus silently ignoring is not compared",
         "invalid names: leading underscore, leading digit, empty, trailing newline, hyphen, space, and the name of an attribute every Data object already has (_show); "
         "each is tried through every adder including positional dict / odict / Share arguments of update, change and create, alone and ahead of a valid field",
+        "create never overwrites, also within one call: when a call names a not yet existing field twice (mapping + keyword, repeated duple) the first value stays",
         "update/change/create return the share (chaining is relied upon by Store itself); del/pop/popitem of a missing field raise KeyError, pull on an empty deck IndexError",
         "the deck holds at most %d elements (adding operations are not applied beyond that)" % DECKCAP,
         "the invalid-field-name attempts (%d self loops) are applied in every field/stamp/store state but only while the deck is empty (Deck and Data share no code)" % sum(1 for o in OPS if o[1].startswith("invalid:")),
